@@ -76,15 +76,33 @@ fn put_opts(ts: i64, uri: &str) -> PutOptions {
     o
 }
 
-/// builds the file; returns the acknowledged view: uri -> payload digest of every frame that must be active
-fn build_file(path: &Path, sh: &Shape) -> Result<BTreeMap<String, String>, String> {
+/// what the builder was acknowledged
+#[derive(Clone, Debug, Default)]
+struct Built {
+    /// uri -> payload digest of every frame that must be active (committed or acknowledged pending)
+    expect: BTreeMap<String, String>,
+    /// the same restricted to what was committed (pending operations ignored)
+    committed: BTreeMap<String, String>,
+    /// model view: committed frames `(active, digest)` in id order, pending operations
+    frames: Vec<(bool, u32)>,
+    pending: Vec<String>,
+    /// active frames that carry an embedding, in the acknowledged / committed view
+    emb_expect: usize,
+    emb_committed: usize,
+}
+
+fn dig32(b: &[u8]) -> u32 { let h = blake3::hash(b); u32::from_le_bytes(h.as_bytes()[..4].try_into().unwrap()) }
+
+/// builds the file; returns the acknowledged view
+fn build_file(path: &Path, sh: &Shape) -> Result<Built, String> {
     let mut rng = Rng::new(sh.seed ^ 0xC21);
-    let mut expect: BTreeMap<String, String> = BTreeMap::new();
     let mut mem = Memvid::create(path).map_err(|e| format!("create: {e}"))?;
     if sh.lex { mem.enable_lex().map_err(|e| format!("enable_lex: {e}"))?; }
     if sh.vec { mem.enable_vec().map_err(|e| format!("enable_vec: {e}"))?; }
-    let mut k = 0usize;
-    let mut put = |mem: &mut Memvid, rng: &mut Rng, expect: &mut BTreeMap<String, String>| -> Result<(), String> {
+    // every put: (uri, digest hex, digest32, has embedding)
+    let mut puts: Vec<(String, String, u32, bool)> = Vec::new();
+    let mut put = |mem: &mut Memvid, rng: &mut Rng, puts: &mut Vec<(String, String, u32, bool)>| -> Result<(), String> {
+        let k = puts.len();
         let uri = format!("mv2://c21/{k}");
         let ts = 1_700_000_000 + (rng.below(5000) as i64);
         let payload: Vec<u8> = if k % 3 == 2 {
@@ -93,39 +111,51 @@ fn build_file(path: &Path, sh: &Shape) -> Result<BTreeMap<String, String>, Strin
             let n = rng.usize(3, 60);
             format!("note {k} {}", words(rng, n)).into_bytes()
         };
-        if sh.vec && k % 2 == 0 {
+        let emb = sh.vec && k % 2 == 0;
+        if emb {
             let e: Vec<f32> = (0..4).map(|i| (rng.below(200) as f32) / 8.0 - (i as f32)).collect();
             mem.put_with_embedding_and_options(&payload, e, put_opts(ts, &uri)).map_err(|e| format!("put emb {k}: {e}"))?;
         } else {
             mem.put_bytes_with_options(&payload, put_opts(ts, &uri)).map_err(|e| format!("put {k}: {e}"))?;
         }
-        expect.insert(uri, b3short(&payload));
-        k += 1;
+        puts.push((uri, b3short(&payload), dig32(&payload), emb));
         Ok(())
     };
-    for _ in 0..sh.n1 { put(&mut mem, &mut rng, &mut expect)?; }
+    let mut deleted: Vec<usize> = Vec::new();
+    for _ in 0..sh.n1 { put(&mut mem, &mut rng, &mut puts)?; }
     mem.commit().map_err(|e| format!("commit 1: {e}"))?;
-    for _ in 0..sh.n2 { put(&mut mem, &mut rng, &mut expect)?; }
+    for _ in 0..sh.n2 { put(&mut mem, &mut rng, &mut puts)?; }
     for d in 0..sh.ndel.min(sh.n1) {
         mem.delete_frame(d as u64).map_err(|e| format!("delete {d}: {e}"))?;
-        expect.remove(&format!("mv2://c21/{d}"));
+        deleted.push(d);
     }
     if sh.n2 > 0 || sh.ndel > 0 { mem.commit().map_err(|e| format!("commit 2: {e}"))?; }
-    for _ in 0..sh.npend { put(&mut mem, &mut rng, &mut expect)?; }
-    if sh.pend_del {
-        let victim = (sh.n1 - 1) as u64;
-        if (victim as usize) >= sh.ndel.min(sh.n1) {
-            mem.delete_frame(victim).map_err(|e| format!("pending delete {victim}: {e}"))?;
-            expect.remove(&format!("mv2://c21/{victim}"));
+    let ncommitted = puts.len();
+    let mut out = Built::default();
+    for (i, p) in puts.iter().enumerate() { out.frames.push((!deleted.contains(&i), p.2)); }
+    for _ in 0..sh.npend { put(&mut mem, &mut rng, &mut puts)?; }
+    for p in &puts[ncommitted..] { out.pending.push(format!("p{}", p.2)); }
+    let mut pend_deleted: Vec<usize> = Vec::new();
+    if sh.pend_del && sh.n1 > 0 {
+        let victim = sh.n1 - 1;
+        if !deleted.contains(&victim) {
+            mem.delete_frame(victim as u64).map_err(|e| format!("pending delete {victim}: {e}"))?;
+            pend_deleted.push(victim);
+            out.pending.push(format!("d{victim}"));
         }
     }
-    if sh.npend > 0 || sh.pend_del {
+    for (i, p) in puts.iter().enumerate() {
+        if deleted.contains(&i) { continue; }
+        if i < ncommitted { out.committed.insert(p.0.clone(), p.1.clone()); if p.3 { out.emb_committed += 1; } }
+        if !pend_deleted.contains(&i) { out.expect.insert(p.0.clone(), p.1.clone()); if p.3 { out.emb_expect += 1; } }
+    }
+    if !out.pending.is_empty() {
         // crash: the handle is never dropped (Drop would commit); the process exits right after
         std::mem::forget(mem);
     } else {
         drop(mem);
     }
-    Ok(expect)
+    Ok(out)
 }
 
 // =======================================================================================
@@ -192,16 +222,22 @@ fn observe(path: &Path, tag: &str) -> Value {
         let frames = memvid_core::verif_hooks::verif_frames(&mem);
         let mut active: BTreeMap<String, String> = BTreeMap::new();
         let mut nactive = 0usize;
+        let mut ids: Vec<String> = Vec::new();
+        let mut emb = 0usize;
         for f in &frames {
             if f.status != FrameStatus::Active { continue; }
             nactive += 1;
             let key = f.uri.clone().unwrap_or_else(|| format!("#{}", f.id));
-            let dig = match mem.frame_canonical_payload(f.id) { Ok(b) => b3short(&b), Err(e) => errkind(&e) };
+            let dig = match mem.frame_canonical_payload(f.id) {
+                Ok(b) => { ids.push(format!("{}:{}", f.id, dig32(&b))); b3short(&b) }
+                Err(e) => { ids.push(format!("{}:{}", f.id, errkind(&e))); errkind(&e) }
+            };
+            if let Ok(Some(_)) = mem.frame_embedding(f.id) { emb += 1; }
             active.insert(key, dig);
         }
         let st = memvid_core::verif_hooks::verif_state(&mem);
         let ix = memvid_core::verif_hooks::verif_index_state(&mem);
-        Ok(json!({"active": active, "nactive": nactive, "total": frames.len(), "time_index": st.time_index_present,
+        Ok(json!({"active": active, "ids": ids.join(","), "emb": emb, "nactive": nactive, "total": frames.len(), "time_index": st.time_index_present,
                   "lex_docs": ix.lex_num_docs, "vec": st.vec_entries.len(), "lex_enabled": st.lex_enabled, "vec_enabled": st.vec_enabled}))
     });
     let _ = std::fs::remove_file(&cp);
@@ -216,7 +252,8 @@ fn child_main(argv: &[String]) -> ! {
             let path = PathBuf::from(&argv[3]);
             let sh = Shape::from_json(&serde_json::from_str(&argv[4]).expect("shape json"));
             match build_file(&path, &sh) {
-                Ok(expect) => println!("OBS {}", json!({"expect": expect})),
+                Ok(b) => println!("OBS {}", json!({"expect": b.expect, "committed": b.committed, "frames": b.frames, "pending": b.pending,
+                    "emb_expect": b.emb_expect, "emb_committed": b.emb_committed})),
                 Err(e) => println!("OBS {}", json!({"error": e})),
             }
         }
@@ -275,48 +312,51 @@ fn run_child(args: &[String]) -> Result<Value, String> {
 // damage, located through the header and the TOC of the intact file
 #[derive(Clone, Debug, PartialEq)]
 enum Damage {
-    None,
     /// header.footer_offset replaced: 0 = one byte early, 1 = one byte late, 2 = zero, 3 = beyond the file,
     /// 4 = the header's own end (4096), 5 = points at the commit footer
     HdrPtr(u8),
     /// byte `i` of header.toc_checksum flipped
     HdrTocSum(u8),
-    /// byte of the TOC's own trailing checksum flipped (also invalidates the footer hash over the TOC)
+    /// byte `i` of the checksum field stored in the TOC flipped (also invalidates the footer hash over the TOC)
     TocSum(u8),
-    /// commit footer: 0 = magic, 1 = toc_len, 2 = toc_hash, 3 = generation
+    /// commit footer: 0 = magic, 1 = toc_len, 2 = toc_hash, 3 = generation (not validated by anything)
     Footer(u8),
-    /// index segment: 0 = time, 1 = lex (Tantivy segment), 2 = vec; byte at fraction num/8 of the segment flipped
+    /// index segment: 0 = time (byte at n/8 flipped), 1 = lex (first Tantivy segment, byte at n/8 flipped),
+    /// 2 = vec (first four bytes inverted: the segment no longer decodes)
     Index(u8, u8),
+    /// first 100 bytes of the embedded WAL region set to 0xFF (outside the property's quantifier)
+    Wal,
 }
 
 impl Damage {
     fn to_json(&self) -> Value {
         match *self {
-            Damage::None => json!({"k": "none"}),
             Damage::HdrPtr(v) => json!({"k": "hdr-ptr", "v": v}),
             Damage::HdrTocSum(i) => json!({"k": "hdr-tocsum", "v": i}),
             Damage::TocSum(i) => json!({"k": "toc-sum", "v": i}),
             Damage::Footer(p) => json!({"k": "footer", "v": p}),
             Damage::Index(w, n) => json!({"k": "index", "v": w, "n": n}),
+            Damage::Wal => json!({"k": "wal"}),
         }
     }
-    fn from_json(v: &Value) -> Damage {
+    fn from_json(v: &Value) -> Option<Damage> {
         let x = v["v"].as_u64().unwrap_or(0) as u8;
-        match v["k"].as_str().unwrap_or("none") {
+        Some(match v["k"].as_str().unwrap_or("") {
             "hdr-ptr" => Damage::HdrPtr(x), "hdr-tocsum" => Damage::HdrTocSum(x), "toc-sum" => Damage::TocSum(x),
-            "footer" => Damage::Footer(x), "index" => Damage::Index(x, v["n"].as_u64().unwrap_or(4) as u8), _ => Damage::None,
-        }
+            "footer" => Damage::Footer(x), "index" => Damage::Index(x, v["n"].as_u64().unwrap_or(0) as u8), "wal" => Damage::Wal,
+            _ => return None,
+        })
     }
     fn name(&self) -> String {
         match *self {
-            Damage::None => "none".into(), Damage::HdrPtr(v) => format!("hdr-ptr-{v}"), Damage::HdrTocSum(_) => "hdr-tocsum".into(),
+            Damage::HdrPtr(_) => "hdr-ptr".into(), Damage::HdrTocSum(_) => "hdr-tocsum".into(),
             Damage::TocSum(_) => "toc-sum".into(), Damage::Footer(p) => format!("footer-{}", ["magic", "len", "hash", "gen"][(p % 4) as usize]),
-            Damage::Index(w, _) => format!("index-{}", ["time", "lex", "vec"][(w % 3) as usize]),
+            Damage::Index(w, _) => format!("index-{}", ["time", "lex", "vec"][(w % 3) as usize]), Damage::Wal => "wal".into(),
         }
     }
 }
 
-struct Layout { len: usize, toc_off: usize, toc: Toc }
+struct Layout { len: usize, toc_off: usize, wal_off: usize, wal_size: usize, toc: Toc }
 
 fn layout(bytes: &[u8]) -> Result<Layout, String> {
     let hb: &[u8; HEADER_SIZE] = bytes.get(..HEADER_SIZE).ok_or("short file")?.try_into().map_err(|_| "short file")?;
@@ -325,14 +365,21 @@ fn layout(bytes: &[u8]) -> Result<Layout, String> {
     let toc_off = hdr.footer_offset as usize;
     if toc_off + FOOTER_SIZE > len { return Err("footer offset beyond file".into()); }
     let toc = Toc::decode(&bytes[toc_off..len - FOOTER_SIZE]).map_err(|e| format!("toc: {e}"))?;
-    Ok(Layout { len, toc_off, toc })
+    Ok(Layout { len, toc_off, wal_off: hdr.wal_offset as usize, wal_size: hdr.wal_size as usize, toc })
+}
+
+fn index_span(lay: &Layout, w: u8) -> Option<(u64, u64)> {
+    match w % 3 {
+        0 => lay.toc.time_index.as_ref().map(|m| (m.bytes_offset, m.bytes_length)),
+        1 => lay.toc.segment_catalog.tantivy_segments.first().map(|s| (s.common.bytes_offset, s.common.bytes_length)),
+        _ => lay.toc.indexes.vec.as_ref().map(|m| (m.bytes_offset, m.bytes_length)),
+    }.filter(|(_, l)| *l > 0)
 }
 
 /// None = the structure does not exist in this file
-fn apply_damage(bytes: &mut Vec<u8>, lay: &Layout, d: &Damage) -> Option<String> {
+fn apply_damage(bytes: &mut [u8], lay: &Layout, d: &Damage) -> Option<String> {
     let fo = lay.len - FOOTER_SIZE;
     match *d {
-        Damage::None => Some("nothing".into()),
         Damage::HdrPtr(v) => {
             let t = lay.toc_off as u64;
             let nv: u64 = match v % 6 { 0 => t - 1, 1 => t + 1, 2 => 0, 3 => lay.len as u64 + 1000, 4 => 4096, _ => fo as u64 };
@@ -347,21 +394,38 @@ fn apply_damage(bytes: &mut Vec<u8>, lay: &Layout, d: &Damage) -> Option<String>
             Some(format!("footer byte {o} flipped"))
         }
         Damage::Index(w, n) => {
-            let (off, l) = match w % 3 {
-                0 => lay.toc.time_index.as_ref().map(|m| (m.bytes_offset, m.bytes_length))?,
-                1 => lay.toc.segment_catalog.tantivy_segments.first().map(|s| (s.common.bytes_offset, s.common.bytes_length))
-                        .or_else(|| lay.toc.indexes.lex_segments.first().map(|s| (s.bytes_offset, s.bytes_length)))
-                        .or_else(|| lay.toc.indexes.lex.as_ref().map(|m| (m.bytes_offset, m.bytes_length)))?,
-                _ => lay.toc.indexes.vec.as_ref().map(|m| (m.bytes_offset, m.bytes_length))
-                        .or_else(|| lay.toc.segment_catalog.vec_segments.first().map(|s| (s.common.bytes_offset, s.common.bytes_length)))?,
-            };
-            if l == 0 { return None; }
-            let o = (off + (l * (n % 8) as u64) / 8) as usize;
-            if o >= bytes.len() { return None; }
-            bytes[o] ^= 0x5A;
-            Some(format!("index {} byte {o} flipped (segment {off}+{l})", ["time", "lex", "vec"][(w % 3) as usize]))
+            let (off, l) = index_span(lay, w)?;
+            if (off + l) as usize > bytes.len() { return None; }
+            if w % 3 == 2 {
+                for o in off..(off + l.min(4)) { bytes[o as usize] ^= 0xFF; }
+                Some(format!("vec index first bytes inverted (segment {off}+{l})"))
+            } else {
+                let o = (off + (l * (n % 8) as u64) / 8) as usize;
+                bytes[o] ^= 0x5A;
+                Some(format!("index {} byte {o} flipped (segment {off}+{l})", ["time", "lex", "vec"][(w % 3) as usize]))
+            }
+        }
+        Damage::Wal => {
+            let n = lay.wal_size.min(100);
+            for b in &mut bytes[lay.wal_off..lay.wal_off + n] { *b = 0xFF; }
+            Some(format!("wal bytes {}..{} set to 0xFF", lay.wal_off, lay.wal_off + n))
         }
     }
+}
+
+/// the abstract condition (flags word of the model's file encoding) of `base` damaged by `faults`
+fn flags_of(lay: &Layout, faults: &[Damage]) -> String {
+    let has = |f: &dyn Fn(&Damage) -> bool| faults.iter().any(|d| f(d));
+    let toc_sum = has(&|d| matches!(d, Damage::TocSum(_)));
+    let hdr_ptr = !has(&|d| matches!(d, Damage::HdrPtr(_)));
+    let hdr_sum = !(toc_sum || has(&|d| matches!(d, Damage::HdrTocSum(_))));
+    let foot = if has(&|d| matches!(d, Damage::Footer(p) if p % 4 == 0)) { 'm' }
+        else if toc_sum || has(&|d| matches!(d, Damage::Footer(p) if p % 4 == 1 || p % 4 == 2)) { 'b' } else { 'o' };
+    let idx = |w: u8| -> char {
+        if index_span(lay, w).is_none() { 'm' } else if has(&|d| matches!(d, Damage::Index(x, _) if x % 3 == w)) { 'c' } else { 'o' }
+    };
+    let b = |x: bool| if x { '1' } else { '0' };
+    format!("{}{}{}{}{}{}{}{}", b(hdr_ptr), b(hdr_sum), b(!toc_sum), foot, idx(0), idx(1), idx(2), b(!has(&|d| matches!(d, Damage::Wal))))
 }
 
 fn scratch() -> PathBuf {
@@ -371,59 +435,361 @@ fn scratch() -> PathBuf {
     base
 }
 
+// =======================================================================================
+// cases
+#[derive(Clone, Debug)]
+struct Case { shape: Shape, faults: Vec<Damage>, bits: u32 }
+
+impl Case {
+    fn to_json(&self) -> Value {
+        json!({"shape": self.shape.to_json(), "faults": self.faults.iter().map(|d| d.to_json()).collect::<Vec<_>>(), "bits": self.bits})
+    }
+    fn from_json(v: &Value) -> Case {
+        Case {
+            shape: Shape::from_json(&v["shape"]),
+            faults: v["faults"].as_array().map(|a| a.iter().filter_map(Damage::from_json).collect()).unwrap_or_default(),
+            bits: v["bits"].as_u64().unwrap_or(0) as u32,
+        }
+    }
+    fn fault_names(&self) -> String { if self.faults.is_empty() { "none".into() } else { self.faults.iter().map(|d| d.name()).collect::<Vec<_>>().join("+") } }
+}
+
+struct Base { bytes: Vec<u8>, lay: Layout, built: Built }
+
+fn build_base(dir: &Path, sh: &Shape) -> Result<Base, String> {
+    let path = dir.join(format!("base-{}.mv2", b3short(sh.key().as_bytes())));
+    let v = run_child(&["build".into(), path.to_string_lossy().to_string(), sh.to_json().to_string()])?;
+    if let Some(e) = v["error"].as_str() { return Err(format!("builder: {e}")); }
+    let built = Built {
+        expect: serde_json::from_value(v["expect"].clone()).map_err(|e| e.to_string())?,
+        committed: serde_json::from_value(v["committed"].clone()).map_err(|e| e.to_string())?,
+        frames: serde_json::from_value(v["frames"].clone()).map_err(|e| e.to_string())?,
+        pending: serde_json::from_value(v["pending"].clone()).map_err(|e| e.to_string())?,
+        emb_expect: v["emb_expect"].as_u64().unwrap_or(0) as usize,
+        emb_committed: v["emb_committed"].as_u64().unwrap_or(0) as usize,
+    };
+    let bytes = std::fs::read(&path).map_err(|e| e.to_string())?;
+    let _ = std::fs::remove_file(&path);
+    let lay = layout(&bytes)?;
+    Ok(Base { bytes, lay, built })
+}
+
+/// the run of one case on the real code: damaged copy -> child
+struct RealRun { what: Vec<String>, flags: String, stale_footer: bool, obs: Result<Value, String> }
+
+fn run_real(dir: &Path, idx: usize, base: &Base, c: &Case) -> Option<RealRun> {
+    let mut by = base.bytes.clone();
+    let mut what = Vec::new();
+    for d in &c.faults { what.push(apply_damage(&mut by, &base.lay, d)?); }
+    let foot_damaged = c.faults.iter().any(|d| matches!(d, Damage::TocSum(_)) || matches!(d, Damage::Footer(p) if p % 4 != 3));
+    let stale_footer = foot_damaged && memvid_core::footer::find_last_valid_footer(&by).is_some();
+    let f = dir.join(format!("case-{idx}.mv2"));
+    std::fs::write(&f, &by).ok()?;
+    let obs = run_child(&["run".into(), f.to_string_lossy().to_string(), c.bits.to_string()]);
+    let _ = std::fs::remove_file(&f);
+    Some(RealRun { what, flags: flags_of(&base.lay, &c.faults), stale_footer, obs })
+}
+
+fn model_frames(b: &Built) -> String {
+    if b.frames.is_empty() { "-".into() } else { b.frames.iter().enumerate().map(|(i, (a, d))| format!("{i}:{}:{d}", if *a { 1 } else { 0 })).collect::<Vec<_>>().join(",") }
+}
+fn model_pending(b: &Built) -> String { if b.pending.is_empty() { "-".into() } else { b.pending.join(",") } }
+
+/// the part of a doctor observation the model predicts: `status | plan | ran`
+fn real_line(d: &Value) -> String {
+    let st = d["status"].as_str().unwrap_or("?");
+    if st == "panic" { return "panic | - | -".into(); }
+    if st.starts_with("err:") { return format!("error | {} | -", "?"); }
+    let ran = d["ran"].as_str().unwrap_or(""); 
+    format!("{st} | {} | {}", d["plan"].as_str().unwrap_or("?"), if ran.is_empty() { "-" } else { ran })
+}
+
+struct ModelRun { status: String, why: String, plan: String, ran: String, file: String, opens: bool, verify: String, logical: String }
+
+fn ask_model(drv: &mut Driver, bits: u32, file: &str) -> Result<ModelRun, String> {
+    let a = drv.ask(&format!("run 0 {bits} {file}"));
+    let parts: Vec<&str> = a.split(" | ").collect();
+    if parts.len() != 6 { return Err(a); }
+    let sw: Vec<&str> = parts[0].split(' ').collect();
+    let ov: Vec<&str> = parts[4].split(' ').collect();
+    Ok(ModelRun {
+        status: sw[0].into(), why: sw.get(1).unwrap_or(&"-").to_string(), plan: parts[1].into(), ran: parts[2].into(), file: parts[3].into(),
+        opens: ov.first().map(|s| *s == "opens=1").unwrap_or(false), verify: ov.get(1).map(|s| s.trim_start_matches("verify=").to_string()).unwrap_or_default(),
+        logical: parts[5].trim_start_matches("logical=").into(),
+    })
+}
+
+impl ModelRun {
+    fn line(&self) -> String {
+        if self.status == "error" { return "error | ? | -".into(); }
+        format!("{} | {} | {}", self.status, self.plan, self.ran)
+    }
+}
+
+/// what `Why` of the model corresponds to in the report's additional findings
+fn real_why(d: &Value) -> String {
+    let extra: Vec<String> = d["extra"].as_array().map(|a| a.iter().filter_map(|x| x.as_str().map(|s| s.to_string())).collect()).unwrap_or_default();
+    if extra.iter().any(|e| e.contains("WAL corrupted and recovery failed")) { "wal-recovery-failed".into() }
+    else if extra.iter().any(|e| e.contains("Aggressive repair succeeded but file still corrupt")) { "repaired-still-corrupt".into() }
+    else if extra.iter().any(|e| e.contains("Aggressive repair failed")) { "repair-failed".into() }
+    else if extra.iter().any(|e| e.starts_with("lock_contention:")) { "open-other".into() }
+    else { "-".into() }
+}
+
+fn evaluate(c: &Case, base: &Base, rr: &RealRun, drv: &mut Option<Driver>, sum: &mut Summary, known: &[String], verbose: bool) {
+    let case_json = c.to_json();
+    let dry = c.bits & 16 != 0;
+    let forced = c.bits & 15 != 0;
+    let v = match &rr.obs {
+        Ok(v) => v.clone(),
+        Err(e) => { sum.oracle_violation("doctor-child-died-or-hung", &format!("child process: {e}"), case_json); return; }
+    };
+    let has_wal = c.faults.iter().any(|d| matches!(d, Damage::Wal));
+    let real_faults = c.faults.iter().filter(|d| !matches!(d, Damage::Footer(p) if p % 4 == 3)).count();
+    let in_quantifier = !has_wal && real_faults <= 1 && !rr.stale_footer;
+    let d1 = &v["d1"]; let o1 = &v["o1"]; let d2 = &v["d2"]; let o2 = &v["o2"]; let d2d = &v["d2d"];
+    let st1 = d1["status"].as_str().unwrap_or("?").to_string();
+    if verbose {
+        println!("case {} opts={} flags={} ({})", c.fault_names(), c.bits, rr.flags, rr.what.join("; "));
+        for k in ["d1", "unchanged", "o1", "d2", "o2", "d2d"] { println!("  impl {k}: {}", v[k]); }
+    }
+    for d in &c.faults { sum.branch(&format!("fault-{}", d.name())); }
+    if c.faults.is_empty() { sum.branch("fault-none"); }
+    if !base.built.pending.is_empty() { sum.branch("crash-left-pending"); }
+    if dry { sum.branch("dry-run"); }
+    if c.bits & 8 != 0 { sum.branch("vacuum"); }
+    if c.bits & 7 != 0 { sum.branch("forced-rebuild"); }
+    sum.branch(&format!("status-{st1}"));
+    if !in_quantifier { sum.branch("outside-quantifier"); }
+    if rr.stale_footer { sum.branch("stale-footer-present"); }
+
+    // ---------------------------------------------------------------- model
+    let mut model_same = false;
+    let mut m1: Option<ModelRun> = None;
+    if let (Some(d), false) = (drv.as_mut(), rr.stale_footer) {
+        let file0 = format!("{} {} {}", model_frames(&base.built), model_pending(&base.built), rr.flags);
+        match ask_model(d, c.bits, &file0) {
+            Err(a) => { sum.disagreement("model driver answer unreadable", case_json.clone(), &a, ""); return; }
+            Ok(m) => {
+                if verbose { println!("  model d1: {} why={} file={} opens={} verify={} logical={}", m.line(), m.why, m.file, m.opens, m.verify, m.logical); }
+                let mut diffs: Vec<String> = Vec::new();
+                let rl = real_line(d1);
+                if st1 != "panic" {
+                    if rl != m.line() { diffs.push(format!("first run: impl [{rl}] model [{}]", m.line())); }
+                    if m.status == "failed" && real_why(d1) != m.why { diffs.push(format!("failure reason: impl {} model {}", real_why(d1), m.why)); }
+                    let real_opens = o1["open"]["error"].is_null();
+                    if real_opens != m.opens { diffs.push(format!("opens after first run: impl {real_opens} model {}", m.opens)); }
+                    let rv = o1["verify"].as_str().unwrap_or("?");
+                    let rvc = if rv == "passed" { "passed" } else if rv.starts_with("failed") { "failed" } else { "error" };
+                    if rvc != m.verify { diffs.push(format!("verify after first run: impl {rv} model {}", m.verify)); }
+                    if real_opens {
+                        let ids = o1["open"]["ids"].as_str().unwrap_or("");
+                        let ids = if ids.is_empty() { "-" } else { ids };
+                        if ids != m.logical { diffs.push(format!("active frames after first run: impl {ids} model {}", m.logical)); }
+                    }
+                    if dry != v["unchanged"].as_bool().unwrap_or(false) && dry { diffs.push("dry run changed the file".into()); }
+                    // second runs on the model's result
+                    if let Ok(m2) = ask_model(d, c.bits, &m.file) {
+                        if verbose { println!("  model d2: {} file={}", m2.line(), m2.file); }
+                        let rl2 = real_line(d2);
+                        if rl2 != m2.line() { diffs.push(format!("second run (same options): impl [{rl2}] model [{}]", m2.line())); }
+                    }
+                    if let Ok(m3) = ask_model(d, c.bits & 16, &m.file) {
+                        if verbose { println!("  model d2default: {}", m3.line()); }
+                        let rl3 = real_line(d2d);
+                        if rl3 != m3.line() { diffs.push(format!("second run (default options): impl [{rl3}] model [{}]", m3.line())); }
+                    }
+                }
+                if diffs.is_empty() { model_same = true; } else {
+                    sum.disagreement(&diffs.join(" ;; "), case_json.clone(), &m.line(), &rl);
+                }
+                m1 = Some(m);
+            }
+        }
+    }
+
+    // ---------------------------------------------------------------- oracle (independent of the model)
+    let expect = if has_wal { &base.built.committed } else { &base.built.expect };
+    let mut fails: Vec<(&'static str, String)> = Vec::new();
+    let act = |o: &Value| -> Option<BTreeMap<String, String>> { if o["open"]["error"].is_null() { serde_json::from_value(o["open"]["active"].clone()).ok() } else { None } };
+    if st1 == "panic" { fails.push(("doctor-panics", format!("Memvid::doctor panicked: {}", d1["msg"].as_str().unwrap_or("")))); }
+    // preservation: whatever doctor reports, the acknowledged active frames are what a reader gets afterwards
+    if let Some(a) = act(o1) {
+        if &a != expect {
+            let lost: Vec<&String> = expect.keys().filter(|k| a.get(*k) != expect.get(*k)).collect();
+            let extra: Vec<&String> = a.keys().filter(|k| !expect.contains_key(*k)).collect();
+            fails.push(("active-frames-altered", format!("after doctor ({st1}) frames lost/altered {lost:?}, unexpected {extra:?}")));
+        }
+        let emb_expect = if has_wal { base.built.emb_committed } else { base.built.emb_expect };
+        let vec_fault = c.faults.iter().any(|d| matches!(d, Damage::Index(w, _) if w % 3 == 2));
+        if !vec_fault && o1["open"]["emb"].as_u64().unwrap_or(0) as usize != emb_expect {
+            fails.push(("rebuild-vec-index-discards-embeddings", format!("{} of {} stored embeddings readable after doctor ({st1})", o1["open"]["emb"], emb_expect)));
+        }
+    }
+    if dry {
+        if !v["unchanged"].as_bool().unwrap_or(false) && st1 != "panic" { fails.push(("dry-run-modified-file", "file bytes changed by a dry run".into())); }
+        if st1 != "panic" && st1 != "clean" && st1 != "plan_only" { fails.push(("dry-run-status", format!("dry run reported {st1}"))); }
+        if st1 == "clean" && (o1["verify"] != "passed" || act(o1).is_none()) { fails.push(("dry-run-clean-on-unhealthy-file", format!("dry run says clean, verify={} ", o1["verify"]))); }
+    } else if in_quantifier && st1 != "panic" {
+        // heals
+        if st1 != "clean" && st1 != "healed" { fails.push(("not-healed", format!("doctor reported {st1} ({})", real_why(d1)))); }
+        if act(o1).is_none() { fails.push(("not-healed", format!("file does not open after doctor: {}", o1["open"]["error"]))); }
+        if o1["verify"] != "passed" { fails.push(("not-healed", format!("verify(deep) after doctor: {}", o1["verify"]))); }
+        // idempotent: an immediate second run reports Clean (default options; with forced rebuilds/vacuum the same
+        // options run again is all forced work: Healed, never Failed) and does not change what a reader sees
+        let s2d = d2d["status"].as_str().unwrap_or("?");
+        if s2d != "clean" { fails.push(("second-run-not-clean", format!("second run with default options reported {s2d}"))); }
+        let s2 = d2["status"].as_str().unwrap_or("?");
+        let want2 = if forced { "healed" } else { "clean" };
+        if s2 != want2 { fails.push(("second-run-not-clean", format!("second run with the same options reported {s2}, expected {want2}"))); }
+        match act(o2) {
+            Some(a) => if &a != expect { fails.push(("active-frames-altered", "second doctor run altered the active frames".into())); },
+            None => fails.push(("not-healed", format!("file does not open after the second run: {}", o2["open"]["error"]))),
+        }
+        if o2["verify"] != "passed" { fails.push(("not-healed", format!("verify(deep) after the second run: {}", o2["verify"]))); }
+    }
+    let nontrivial = !c.faults.is_empty() || !base.built.pending.is_empty();
+    if fails.is_empty() {
+        sum.branch("oracle-held");
+    } else {
+        // signature of the failure class
+        let toc_sum = c.faults.iter().any(|d| matches!(d, Damage::TocSum(_)));
+        let mut seen: Vec<String> = Vec::new();
+        for (sig0, what) in &fails {
+            let sig = if *sig0 == "not-healed" && toc_sum && base.built.pending.is_empty() { "toc-checksum-damage-not-healed" }
+                else if *sig0 == "second-run-not-clean" && toc_sum && base.built.pending.is_empty() { "toc-checksum-damage-not-healed" } else { sig0 };
+            if seen.iter().any(|s| s == sig) { continue; }
+            seen.push(sig.to_string());
+            // a recorded finding must be predicted by the model as well
+            let predicted = model_same || match (sig, &m1) {
+                ("rebuild-vec-index-discards-embeddings", Some(m)) => m.file.split(' ').nth(2).map(|f| f.as_bytes().get(6) == Some(&b'm')).unwrap_or(false),
+                _ => false,
+            };
+            if predicted && known.iter().any(|k| k == sig) {
+                sum.known_finding(sig, &format!("{} opts={}: {what}", c.fault_names(), c.bits), case_json.clone());
+                sum.branch("known-finding-reproduced");
+            } else {
+                sum.oracle_violation(sig, &format!("{} opts={} flags={}: {what}", c.fault_names(), c.bits, rr.flags), case_json.clone());
+            }
+        }
+    }
+    let canon = format!("{}|{}|{}", c.shape.key(), c.faults.iter().map(|d| d.to_json().to_string()).collect::<Vec<_>>().join("+"), c.bits);
+    sum.case(&canon, nontrivial, || json!({"shape": c.shape.to_json(), "faults": c.fault_names(), "opts": c.bits, "flags": rr.flags, "status": st1,
+        "second_run_default": d2d["status"], "verify": o1["verify"]}));
+}
+
+fn run_all(cases: &[Case], dir: &Path, jobs: usize, drv: &mut Option<Driver>, sum: &mut Summary, known: &[String], verbose: bool) {
+    // bases (one build per distinct shape)
+    let mut bases: BTreeMap<String, Arc<Base>> = BTreeMap::new();
+    for c in cases {
+        if bases.contains_key(&c.shape.key()) { continue; }
+        match build_base(dir, &c.shape) {
+            Ok(b) => { bases.insert(c.shape.key(), Arc::new(b)); }
+            Err(e) => { sum.notes.push(format!("base build failed for {}: {e}", c.shape.key())); }
+        }
+    }
+    let next = Arc::new(AtomicUsize::new(0));
+    let results: Arc<Mutex<Vec<Option<RealRun>>>> = Arc::new(Mutex::new((0..cases.len()).map(|_| None).collect()));
+    let cases_arc: Arc<Vec<Case>> = Arc::new(cases.to_vec());
+    let bases_arc = Arc::new(bases);
+    let mut hs = Vec::new();
+    for _ in 0..jobs.max(1) {
+        let (next, results, cases_arc, bases_arc, dir) = (next.clone(), results.clone(), cases_arc.clone(), bases_arc.clone(), dir.to_path_buf());
+        hs.push(std::thread::spawn(move || loop {
+            let i = next.fetch_add(1, Ordering::SeqCst);
+            if i >= cases_arc.len() { break; }
+            let c = &cases_arc[i];
+            let Some(b) = bases_arc.get(&c.shape.key()) else { continue };
+            let r = run_real(&dir, i, b, c);
+            results.lock().unwrap()[i] = r;
+        }));
+    }
+    for h in hs { let _ = h.join(); }
+    let mut results = results.lock().unwrap();
+    for (i, c) in cases.iter().enumerate() {
+        let Some(b) = bases_arc.get(&c.shape.key()) else { continue };
+        match results[i].take() {
+            Some(rr) => evaluate(c, b, &rr, drv, sum, known, verbose),
+            None => { sum.branch("structure-absent"); }
+        }
+        if sum.oracle_violations.len() + sum.disagreements.len() >= 12 { break; }
+    }
+}
+
+fn single_faults(rng: &mut Rng) -> Vec<Damage> {
+    vec![Damage::HdrPtr(rng.below(6) as u8), Damage::HdrTocSum(rng.below(32) as u8), Damage::TocSum(rng.below(32) as u8),
+         Damage::Footer(0), Damage::Footer(1), Damage::Footer(2), Damage::Footer(3),
+         Damage::Index(0, rng.below(8) as u8), Damage::Index(1, rng.below(8) as u8), Damage::Index(2, 0)]
+}
+
+fn gen_shape(rng: &mut Rng) -> Shape {
+    let n1 = rng.usize(1, 4);
+    Shape { seed: rng.below(1 << 20), n1, n2: rng.usize(0, 2), ndel: if rng.chance(1, 3) { rng.usize(1, n1) } else { 0 },
+            npend: if rng.chance(1, 2) { rng.usize(1, 3) } else { 0 }, pend_del: rng.chance(1, 4), lex: true, vec: rng.chance(2, 3) }
+}
+
 fn main() {
     let argv: Vec<String> = std::env::args().collect();
     if argv.get(1).map(|s| s.as_str()) == Some("child") { child_main(&argv); }
-    if argv.get(1).map(|s| s.as_str()) == Some("probe") {
-        // exploration: one shape, every damage, a few option sets
-        let sh = Shape::from_json(&serde_json::from_str(argv.get(2).map(|s| s.as_str()).unwrap_or("{}")).unwrap());
-        let bitsets: Vec<u32> = argv.get(3).map(|s| s.split(',').map(|x| x.parse().unwrap()).collect()).unwrap_or(vec![0]);
-        let dir = scratch();
-        let base = dir.join("base.mv2");
-        let b = run_child(&["build".into(), base.to_string_lossy().to_string(), sh.to_json().to_string()]);
-        println!("build: {b:?}");
-        let orig = std::fs::read(&base).unwrap();
-        let lay = match layout(&orig) { Ok(l) => l, Err(e) => { println!("layout: {e}"); return; } };
-        println!("len={} toc_off={} frames={} time={:?} lexsegs={} tantivy={} vec={:?} vecsegs={}", lay.len, lay.toc_off, lay.toc.frames.len(),
-            lay.toc.time_index.as_ref().map(|m| (m.bytes_offset, m.bytes_length)), lay.toc.indexes.lex_segments.len(),
-            lay.toc.segment_catalog.tantivy_segments.len(), lay.toc.indexes.vec.as_ref().map(|m| (m.bytes_offset, m.bytes_length)),
-            lay.toc.segment_catalog.vec_segments.len());
-        let expect: BTreeMap<String, String> = b.as_ref().ok().and_then(|v| serde_json::from_value(v["expect"].clone()).ok()).unwrap_or_default();
-        let mut dmg = vec![Damage::None];
-        for v in 0..6 { dmg.push(Damage::HdrPtr(v)); }
-        dmg.push(Damage::HdrTocSum(3)); dmg.push(Damage::TocSum(5));
-        for p in 0..4 { dmg.push(Damage::Footer(p)); }
-        for w in 0..3 { for n in 0..8 { dmg.push(Damage::Index(w, n)); } }
-        let only: Option<String> = argv.get(4).cloned();
-        for d in &dmg {
-            if let Some(o) = &only { if !d.name().starts_with(o.as_str()) { continue; } }
-            for &bits in &bitsets {
-                let mut by = orig.clone();
-                let Some(what) = apply_damage(&mut by, &lay, d) else { println!("{}: n/a", d.name()); continue; };
-                let f = dir.join("case.mv2");
-                std::fs::write(&f, &by).unwrap();
-                let t0 = Instant::now();
-                let r = run_child(&["run".into(), f.to_string_lossy().to_string(), bits.to_string()]);
-                println!("--- {} opts={bits} ({what}) {:?}", d.name(), t0.elapsed());
-                match r {
-                    Ok(v) => {
-                        let fr = |o: &Value| -> String {
-                            if let Some(e) = o["open"]["error"].as_str() { return format!("open-{e}"); }
-                            let act: BTreeMap<String, String> = serde_json::from_value(o["open"]["active"].clone()).unwrap_or_default();
-                            let same = act == expect;
-                            format!("open-ok frames={} lex={} vec={} time={}", if same { "same".to_string() } else { format!("DIFF {:?}", act.keys().collect::<Vec<_>>()) }, o["open"]["lex_docs"], o["open"]["vec"], o["open"]["time_index"])
-                        };
-                        let ab = |x: &Value| -> String { x.as_str().unwrap_or("?").replace("header_healing", "HH").replace("wal_replay", "WR").replace("index_rebuild", "IR").replace("finalize", "FZ").replace("verify", "VF").replace("vacuum", "VA").replace("executed", "x").replace("skipped", "s").replace("failed", "F") };
-                        println!("   d1={} ran[{}] codes[{}] extra{} msg={} | unch={} v1={} {} | d2={} ran[{}] d2d={} | v2={} {}",
-                            v["d1"]["status"], ab(&v["d1"]["ran"]), v["d1"]["codes"].as_str().unwrap_or("?"), v["d1"]["extra"], v["d1"]["msg"].as_str().unwrap_or("-"),
-                            v["unchanged"], v["o1"]["verify"], fr(&v["o1"]), v["d2"]["status"], ab(&v["d2"]["ran"]), v["d2d"]["status"], v["o2"]["verify"], fr(&v["o2"]));
-                    }
-                    Err(e) => println!("   child: {e}"),
-                }
-            }
-        }
+    let args = parse_args();
+    let mut drv = if args.driver.to_str() == Some("none") || args.driver.as_os_str().is_empty() { None } else { Some(Driver::spawn(&args.driver).expect("spawn driver")) };
+    let known: Vec<String> = args.extra.get("known").map(|s| s.split(',').map(|x| x.to_string()).collect()).unwrap_or_default();
+    let mut sum = Summary::new("C21", &args,
+        "real .mv2 files built through the public API in a child process (1-6 frames, optional embeddings, tombstones, one or two commits, \
+         optionally leaked with 1-4 acknowledged uncommitted WAL records), damaged in one structure located through the header/TOC \
+         (header footer_offset: 6 wrong values, header toc_checksum byte, TOC checksum byte, footer magic/len/hash/generation byte, \
+         time / Tantivy / vec index segment) or, outside the quantifier, in two structures or the WAL region; Memvid::doctor with each of \
+         the 32 option combinations in a child process, followed by verify(deep) + open on copies, a second run with the same options \
+         and one with default options; every report (status, plan, phase statuses, failure reason), verify/open result and active \
+         frame list compared with the Lean model fed the abstract condition; non-trivial = damaged or crash-left file; \
+         distinct = shape + damage + options");
+    sum.expect_branches(&["crash-left-pending", "fault-hdr-ptr", "fault-hdr-tocsum", "fault-toc-sum", "fault-footer-magic", "fault-footer-hash",
+        "fault-index-time", "fault-index-vec", "dry-run", "vacuum", "forced-rebuild", "status-healed", "status-clean", "oracle-held"]);
+    let dir = scratch();
+    if args.mode == "replay" {
+        let case = load_replay(args.replay_file.as_ref().expect("replay file"));
+        let input = case.get("input").unwrap_or(&case);
+        let c = Case::from_json(input);
+        run_all(&[c], &dir, 1, &mut drv, &mut sum, &known, true);
         let _ = std::fs::remove_dir_all(&dir);
-        return;
+        if let Some(d) = drv.as_ref() { sum.model_requests = d.requests; }
+        sum.finish(&args);
     }
-    let _ = (Arc::new(Mutex::new(0)), parse_args as fn() -> Args);
+    let mut rng = Rng::new(args.seed);
+    let sh_clean = Shape { seed: 11, n1: 3, n2: 2, ndel: 1, npend: 0, pend_del: false, lex: true, vec: true };
+    let sh_pend = Shape { seed: 12, n1: 2, n2: 0, ndel: 0, npend: 2, pend_del: true, lex: true, vec: true };
+    let sh_plain = Shape { seed: 13, n1: 2, n2: 1, ndel: 0, npend: 1, pend_del: false, lex: true, vec: false };
+    let mut cases: Vec<Case> = Vec::new();
+    // fixed corpus: the witnesses of the recorded defects first
+    cases.push(Case { shape: sh_pend.clone(), faults: vec![], bits: 0 });                          // crash-left file, default options
+    cases.push(Case { shape: sh_pend.clone(), faults: vec![Damage::HdrPtr(0)], bits: 0 });         // crash-left + header pointer
+    cases.push(Case { shape: sh_clean.clone(), faults: vec![Damage::TocSum(5)], bits: 0 });        // TOC checksum byte
+    cases.push(Case { shape: sh_clean.clone(), faults: vec![], bits: 4 });                         // forced vec rebuild on a healthy file
+    cases.push(Case { shape: sh_clean.clone(), faults: vec![], bits: 0 });
+    cases.push(Case { shape: sh_clean.clone(), faults: vec![Damage::HdrPtr(3), Damage::Footer(2)], bits: 0 }); // outside the quantifier
+    cases.push(Case { shape: sh_plain.clone(), faults: vec![Damage::Wal], bits: 0 });               // outside the quantifier
+    cases.push(Case { shape: sh_pend.clone(), faults: vec![Damage::TocSum(1)], bits: 16 });
+    let shapes_quick = [sh_clean.clone(), sh_pend.clone(), sh_plain.clone()];
+    let n = if args.thorough { 520 } else { 20 };
+    let mut shapes: Vec<Shape> = shapes_quick.to_vec();
+    if args.thorough { for _ in 0..9 { shapes.push(gen_shape(&mut rng)); } }
+    // every single fault and every option combination appears; the pairing is random
+    let mut bits_cycle: Vec<u32> = (0..32).collect();
+    rng.shuffle(&mut bits_cycle);
+    for i in 0..n {
+        let shape = rng.pick(&shapes).clone();
+        let singles = single_faults(&mut rng);
+        let faults: Vec<Damage> = match rng.below(20) {
+            0 => vec![],
+            1 | 2 if args.thorough || i % 2 == 0 => { let a = rng.pick(&singles).clone(); let mut b = rng.pick(&singles).clone(); if rng.chance(1, 6) { b = Damage::Wal; } if a == b { vec![a] } else { vec![a, b] } }
+            _ => vec![singles[i % singles.len()].clone()],
+        };
+        let bits = if rng.chance(1, 4) { 0 } else { bits_cycle[i % 32] };
+        cases.push(Case { shape, faults, bits });
+    }
+    let jobs = if args.thorough { 6 } else { 4 };
+    run_all(&cases, &dir, jobs, &mut drv, &mut sum, &known, false);
+    let _ = std::fs::remove_dir_all(&dir);
+    if let Some(d) = drv.as_ref() { sum.model_requests = d.requests; }
+    sum.finish(&args);
 }
